@@ -131,6 +131,7 @@ func (p *Poller) Poll(ctx context.Context, peer peer.ID) (*PollResult, error) {
 			res.Status = PollHit
 		}
 
+		receivedBefore := res.ReceivedCertificates
 		for cert := range ch {
 			// TODO: consider batching verification, it's slightly faster.
 			next, _, pt, err := certs.ValidateFinalityCertificates(
@@ -162,10 +163,11 @@ func (p *Poller) Poll(ctx context.Context, peer peer.ID) (*PollResult, error) {
 		// least one).
 		if resp.PendingInstance <= p.NextInstance {
 			return res, nil
-		} else if res.ReceivedCertificates == 0 {
+		} else if res.ReceivedCertificates == receivedBefore {
 			res.Status = PollFailed
-			// If they give me no certificates but claim to have more, treat this as a
-			// failure (could be a connection failure, etc).
+			// If they give me no certificates (in this response) but claim to have
+			// more, treat this as a failure (could be a connection failure, etc).
+			// Otherwise a peer could keep us polling it for ever.
 			return res, nil
 		}
 
